@@ -7,50 +7,8 @@ From WV Require Import Lib.PyBytes Lib.Regex Model.Receiver Model.Parser Model.C
 Import ListNotations.
 Local Open Scope N_scope.
 
-(* kf_c01_clte_keepalive : b'POST /a HTTP/1.1\r\nContent-Length: 3\r\nTransfer-Encoding: chunked\r\n\r\n3\r\nabc\r\n0\r\n\r\nGET /b HTTP/1.1\r\n\r\n' *)
-Definition w_clte_keepalive : bytes := [80;79;83;84;32;47;97;32;72;84;84;80;47;49;46;49;13;10;67;111;110;116;101;110;116;45;76;101;110;103;116;104;58;32;51;13;10;84;114;97;110;115;102;101;114;45;69;110;99;111;100;105;110;103;58;32;99;104;117;110;107;101;100;13;10;13;10;51;13;10;97;98;99;13;10;48;13;10;13;10;71;69;84;32;47;98;32;72;84;84;80;47;49;46;49;13;10;13;10].
-Lemma clte_keepalive_refuted :
-  observe (feed adj0 chan_init [w_clte_keepalive]) <> Some (map (ref_view no_devs) (ref_run (cfg_of adj0) w_clte_keepalive)).
-Proof. intro H. vm_compute in H. discriminate H. Qed.
-
-(* kf_c01_te_http10 : b'POST /a HTTP/1.0\r\nConnection: keep-alive\r\nTransfer-Encoding: chunked\r\n\r\nGET /smuggled HTTP/1.1\r\n\r\n' *)
-Definition w_te_http10 : bytes := [80;79;83;84;32;47;97;32;72;84;84;80;47;49;46;48;13;10;67;111;110;110;101;99;116;105;111;110;58;32;107;101;101;112;45;97;108;105;118;101;13;10;84;114;97;110;115;102;101;114;45;69;110;99;111;100;105;110;103;58;32;99;104;117;110;107;101;100;13;10;13;10;71;69;84;32;47;115;109;117;103;103;108;101;100;32;72;84;84;80;47;49;46;49;13;10;13;10].
-Lemma te_http10_refuted :
-  observe (feed adj0 chan_init [w_te_http10]) <> Some (map (ref_view no_devs) (ref_run (cfg_of adj0) w_te_http10)).
-Proof. intro H. vm_compute in H. discriminate H. Qed.
-
-(* kf_c01_reqline_ws : b'GET /a HTTP/1.1\n\r\n\r\n' *)
-Definition w_reqline_ws : bytes := [71;69;84;32;47;97;32;72;84;84;80;47;49;46;49;10;13;10;13;10].
-Lemma reqline_ws_refuted :
-  observe (feed adj0 chan_init [w_reqline_ws]) <> Some (map (ref_view no_devs) (ref_run (cfg_of adj0) w_reqline_ws)).
-Proof. intro H. vm_compute in H. discriminate H. Qed.
-
 (* kf_c01_trailer_unvalidated : b'POST /a HTTP/1.1\r\nTransfer-Encoding: chunked\r\n\r\n0\r\nfoo: b\nar\r\n\r\nGET /b HTTP/1.1\r\n\r\n' *)
 Definition w_trailer_unvalidated : bytes := [80;79;83;84;32;47;97;32;72;84;84;80;47;49;46;49;13;10;84;114;97;110;115;102;101;114;45;69;110;99;111;100;105;110;103;58;32;99;104;117;110;107;101;100;13;10;13;10;48;13;10;102;111;111;58;32;98;10;97;114;13;10;13;10;71;69;84;32;47;98;32;72;84;84;80;47;49;46;49;13;10;13;10].
 Lemma trailer_unvalidated_refuted :
-  observe (feed adj0 chan_init [w_trailer_unvalidated]) <> Some (map (ref_view no_devs) (ref_run (cfg_of adj0) w_trailer_unvalidated)).
-Proof. intro H. vm_compute in H. discriminate H. Qed.
-
-(* kf_c01_empty_chunk_line : b'POST /a HTTP/1.1\r\nTransfer-Encoding: chunked\r\n\r\n\r\n3\r\nabc\r\n\r\n0\r\n\r\n' *)
-Definition w_empty_chunk_line : bytes := [80;79;83;84;32;47;97;32;72;84;84;80;47;49;46;49;13;10;84;114;97;110;115;102;101;114;45;69;110;99;111;100;105;110;103;58;32;99;104;117;110;107;101;100;13;10;13;10;13;10;51;13;10;97;98;99;13;10;13;10;48;13;10;13;10].
-Lemma empty_chunk_line_refuted :
-  observe (feed adj0 chan_init [w_empty_chunk_line]) <> Some (map (ref_view no_devs) (ref_run (cfg_of adj0) w_empty_chunk_line)).
-Proof. intro H. vm_compute in H. discriminate H. Qed.
-
-(* kf_c01_conn_close_list : b'GET /a HTTP/1.1\r\nConnection: close, x\r\n\r\nGET /next HTTP/1.1\r\n\r\n' *)
-Definition w_conn_close_list : bytes := [71;69;84;32;47;97;32;72;84;84;80;47;49;46;49;13;10;67;111;110;110;101;99;116;105;111;110;58;32;99;108;111;115;101;44;32;120;13;10;13;10;71;69;84;32;47;110;101;120;116;32;72;84;84;80;47;49;46;49;13;10;13;10].
-Lemma conn_close_list_refuted :
-  observe (feed adj0 chan_init [w_conn_close_list]) <> Some (map (ref_view no_devs) (ref_run (cfg_of adj0) w_conn_close_list)).
-Proof. intro H. vm_compute in H. discriminate H. Qed.
-
-(* kf_c01_te_ws_element : b'POST /a HTTP/1.1\r\nTransfer-Encoding: chunked\r\nTransfer-Encoding: \r\n\r\n0\r\n\r\n' *)
-Definition w_te_ws_element : bytes := [80;79;83;84;32;47;97;32;72;84;84;80;47;49;46;49;13;10;84;114;97;110;115;102;101;114;45;69;110;99;111;100;105;110;103;58;32;99;104;117;110;107;101;100;13;10;84;114;97;110;115;102;101;114;45;69;110;99;111;100;105;110;103;58;32;13;10;13;10;48;13;10;13;10].
-Lemma te_ws_element_refuted :
-  observe (feed adj0 chan_init [w_te_ws_element]) <> Some (map (ref_view no_devs) (ref_run (cfg_of adj0) w_te_ws_element)).
-Proof. intro H. vm_compute in H. discriminate H. Qed.
-
-(* kf_c01_target_nonascii : b'GET //a\xe9 HTTP/1.1\r\n\r\n' *)
-Definition w_target_nonascii : bytes := [71;69;84;32;47;47;97;233;32;72;84;84;80;47;49;46;49;13;10;13;10].
-Lemma target_nonascii_refuted :
-  observe (feed adj0 chan_init [w_target_nonascii]) <> Some (map (ref_view no_devs) (ref_run (cfg_of adj0) w_target_nonascii)).
+  observe (feed adj0 chan_init [w_trailer_unvalidated]) <> Some (map ref_view (ref_run (cfg_of adj0) w_trailer_unvalidated)).
 Proof. intro H. vm_compute in H. discriminate H. Qed.
